@@ -86,6 +86,20 @@ Definition classify (T : option Q) (sQ : Q) : wclass :=
   | Some t => if Qltb (t + tol)%Q sQ then WHit else if Qltb sQ (t - tol)%Q then WMiss else WAmb
   end.
 
+(* A window consisting only of unknown characters has the float score 0.0 exactly (nothing is
+   added), and the float threshold (idx+smallest)*bin_size has the sign of its exact value and is
+   0.0 exactly when the threshold bin is 0: the comparison is decided exactly, no band. *)
+Definition all_unknown (s : list Z) (i w : nat) : bool :=
+  forallb (fun x => x =? -1) (firstn w (skipn i s)).
+
+Definition wcls (T : option Q) (s : list Z) (i w : nat) (sQ : Q) : wclass :=
+  if all_unknown s i w then
+    match T with
+    | None => WMiss
+    | Some t => if Qltb t sQ then WHit else WMiss
+    end
+  else classify T sQ.
+
 Definition same_key (k : Z) (plus : bool) (l i : Z) (h : hit) : bool :=
   (h_motif h =? k) && Bool.eqb (h_plus h) plus && (h_seq h =? l) && (h_start h =? i).
 
@@ -127,7 +141,7 @@ Definition hit_ok (c : call) (ctxs : list mctx) (h : hit) : bool :=
   let w := Z.of_nat (length (lo m)) in
   (0 <=? h_start h) && (h_start h + w <=? Z.of_nat (length s)) && (h_end h =? h_start h + w) &&
   let sQ := scoreQ (cK c) (spec_score (lo m) (h_plus h) s (Z.to_nat (h_start h))) in
-  (match classify (m_T x) sQ with WMiss => false | _ => true end) &&
+  (match wcls (m_T x) s (Z.to_nat (h_start h)) (length (lo m)) sQ with WMiss => false | _ => true end) &&
   Qclose (h_score h) sQ (Qmax1 sQ) &&
   p_ok c x sQ (h_p h) &&
   (Qltb (h_p h) (cthr c) || Qclose (h_p h) (cthr c) (cthr c)).
@@ -144,7 +158,7 @@ Definition windows_ok (c : call) (ctxs : list mctx) (hs : list hit) : bool :=
         forallb (fun i =>
           let sQ := scoreQ (cK c) (spec_score (lo m) plus s i) in
           let n := count_key hs (Z.of_nat k) plus (Z.of_nat l) (Z.of_nat i) in
-          match classify (m_T x) sQ with
+          match wcls (m_T x) s i w sQ with
           | WHit => n =? 1
           | WMiss => n =? 0
           | WAmb => n <=? 1
@@ -165,7 +179,7 @@ Definition count_class (c : call) (ctxs : list mctx) (k : nat) (cls : wclass) : 
     sumz (map (fun l =>
       let s := nth l (cseqs c) [] in
       Z.of_nat (length (filter (fun i =>
-        match classify (m_T x) (scoreQ (cK c) (spec_score (lo m) plus s i)), cls with
+        match wcls (m_T x) s i w (scoreQ (cK c) (spec_score (lo m) plus s i)), cls with
         | WHit, WHit | WAmb, WAmb => true
         | _, _ => false
         end) (seq 0 (length s + 1 - w)))))
@@ -219,7 +233,7 @@ Definition has_amb (c : call) : bool :=
         let s := nth l (cseqs c) [] in
         existsb (fun i =>
           let sQ := scoreQ (cK c) (spec_score (lo m) plus s i) in
-          match classify (m_T x) sQ with
+          match wcls (m_T x) s i (length (lo m)) sQ with
           | WAmb => true
           | WMiss => false
           | WHit => let q := (sQ / cbin c)%Q in
